@@ -178,3 +178,39 @@ pub fn pw_from_nums<T: Nums>(v: &[f64]) -> Piecewise<T> {
 pub fn all_bits_eq(a: &[f64], b: &[f64]) -> bool {
     a.len() == b.len() && a.iter().zip(b).all(|(x, y)| x.to_bits() == y.to_bits())
 }
+
+/// dispatch a generic function on the fixed-degree polynomial type of a given degree
+#[macro_export]
+macro_rules! by_degree {
+    ($d:expr, $f:ident ( $($args:expr),* )) => {
+        match $d {
+            0 => $f::<Poly0>($($args),*),
+            1 => $f::<Poly1>($($args),*),
+            2 => $f::<Poly2>($($args),*),
+            3 => $f::<Poly3>($($args),*),
+            4 => $f::<Poly4>($($args),*),
+            5 => $f::<Poly5>($($args),*),
+            6 => $f::<Poly6>($($args),*),
+            7 => $f::<Poly7>($($args),*),
+            8 => $f::<Poly8>($($args),*),
+            _ => unreachable!("degree"),
+        }
+    };
+}
+/// the same for degrees 0..=7 (the forms that have an integral)
+#[macro_export]
+macro_rules! by_degree7 {
+    ($d:expr, $f:ident ( $($args:expr),* )) => {
+        match $d {
+            0 => $f::<Poly0>($($args),*),
+            1 => $f::<Poly1>($($args),*),
+            2 => $f::<Poly2>($($args),*),
+            3 => $f::<Poly3>($($args),*),
+            4 => $f::<Poly4>($($args),*),
+            5 => $f::<Poly5>($($args),*),
+            6 => $f::<Poly6>($($args),*),
+            7 => $f::<Poly7>($($args),*),
+            _ => unreachable!("degree"),
+        }
+    };
+}
